@@ -240,3 +240,63 @@ func deferArgCells() []cell {
 	}
 	return cs
 }
+
+// structCopyCells: struct types nested BY VALUE 1..4 levels deep; a value is copied by :=, by =, by
+// passing it as a parameter or by returning it; an innermost field is then written through one of the two
+// values and read through both. Go's value semantics are the oracle (LANGUAGE.md: a struct assigned or
+// passed is a copy; only a *T receiver / pointer shares).
+func structCopyCells() []cell {
+	var cs []cell
+	for depth := 1; depth <= 4; depth++ {
+		// type T1 struct{ N int; S string }; Tk struct{ In T(k-1); Tag int }
+		var decl strings.Builder
+		decl.WriteString("type __P__T1 struct {\n\tN int\n\tS string\n}\n\n")
+		for k := 2; k <= depth; k++ {
+			fmt.Fprintf(&decl, "type __P__T%d struct {\n\tIn __P__T%d\n\tTag int\n}\n\n", k, k-1)
+		}
+		lit := "__P__T1{N: 1, S: \"s\"}"
+		path := ""
+		for k := 2; k <= depth; k++ {
+			lit = fmt.Sprintf("__P__T%d{In: %s, Tag: %d}", k, lit, k)
+			path += ".In"
+		}
+		T := fmt.Sprintf("__P__T%d", depth)
+		fmt.Fprintf(&decl, "func __P__id(v %s) %s {\n\treturn v\n}\n\nfunc __P__poke(v %s) int {\n\tv%s.N = 77\n\tv%s.S = \"poked\"\n\treturn v%s.N\n}\n\nfunc __P__make() %s {\n\tv := %s\n\treturn v\n}\n\n",
+			T, T, T, path, path, path, T, lit)
+		show := "\t__F__Printf(\"%d %s %d %s\\n\", a" + path + ".N, a" + path + ".S, b" + path + ".N, b" + path + ".S)\n"
+		for _, kind := range []string{"define", "assign", "param", "return", "make-twice"} {
+			for _, written := range []string{"orig", "copy"} {
+				var b strings.Builder
+				b.WriteString("\ta := " + lit + "\n")
+				switch kind {
+				case "define":
+					b.WriteString("\tb := a\n")
+				case "assign":
+					b.WriteString("\tvar b " + T + "\n\tb = a\n")
+				case "param":
+					b.WriteString("\tb := a\n\t__F__Printf(\"%d\\n\", __P__poke(a))\n")
+				case "return":
+					b.WriteString("\tb := __P__id(a)\n")
+				default:
+					b.WriteString("\ta = __P__make()\n\tb := __P__make()\n")
+				}
+				b.WriteString(show)
+				w := "a"
+				if written == "copy" {
+					w = "b"
+				}
+				fmt.Fprintf(&b, "\t%s%s.N = 42\n\t%s%s.S = \"w\"\n", w, path, w, path)
+				b.WriteString(show)
+				if depth >= 2 {
+					// a whole inner struct assigned across, then written again
+					fmt.Fprintf(&b, "\tb.In = a.In\n\ta%s.N = a%s.N + 1\n", path, path)
+					b.WriteString(show)
+				}
+				cs = append(cs, cell{key: fmt.Sprintf("struct-copy:d%d:%s:write-%s", depth, kind, written),
+					name: fmt.Sprintf("struct nested %d deep, copied by %s, innermost field written through the %s", depth, kind, written),
+					prog: gen.FromTemplate(decl.String()+tmplMain(b.String()), true)})
+			}
+		}
+	}
+	return cs
+}
